@@ -176,6 +176,10 @@ pub enum Stmt {
     Drop(usize),
     Count,
     Keys,
+    /// `async_lock` (`owned`: `async_lock_owned`) polled once by hand; the pending future stays in the slot
+    ALock { owned: bool, k: u32 },
+    APoll(usize),
+    ACancel(usize),
 }
 
 fn parse_stmt(s: &str) -> Option<Stmt> {
@@ -205,6 +209,10 @@ fn parse_stmt(s: &str) -> Option<Stmt> {
             Stmt::Op(nat(slot)?, g)
         }
         ["drop", slot] => Stmt::Drop(nat(slot)?),
+        ["alock", "a", k] => Stmt::ALock { owned: false, k: nat(k)? },
+        ["alock", "ao", k] => Stmt::ALock { owned: true, k: nat(k)? },
+        ["apoll", slot] => Stmt::APoll(nat(slot)?),
+        ["acancel", slot] => Stmt::ACancel(nat(slot)?),
         ["count"] => Stmt::Count,
         ["keys"] => Stmt::Keys,
         _ => return None,
@@ -225,6 +233,9 @@ impl fmt::Display for Stmt {
             Stmt::Drop(slot) => write!(f, "drop {slot}"),
             Stmt::Count => write!(f, "count"),
             Stmt::Keys => write!(f, "keys"),
+            Stmt::ALock { owned, k } => write!(f, "alock {} {}", if *owned { "ao" } else { "a" }, k),
+            Stmt::APoll(slot) => write!(f, "apoll {slot}"),
+            Stmt::ACancel(slot) => write!(f, "acancel {slot}"),
         }
     }
 }
